@@ -18,3 +18,37 @@ Theorem C11_block_is_quadratic_form (R : comRingType) n m (P A : 'M[R]_n) (B : '
     + ((A *m x)^T *m P *m z + (B *m u)^T *m P *m z + z^T *m P *m z).
 Proof. exact: dissip_block_quad. Qed.
 Print Assumptions C11_block_is_quadratic_form.
+
+(* ---------- about the code itself: the blocks that LmiEdmdDissipativityConstr hands to the solver in both sub-problems, as
+   REGENERATED from the source on this run (tools/gen_lmi_dis.py -> Gen/LmiDisGen.v; A, B, C come from _create_ss(U, None), also
+   checked; the supply rate is the constructor argument or, for None, diag(1, -1); its blocks are the upper-left,
+   upper-right and lower-right ones; the constraint is `>> picos_eps`, problem B also constrains P >> picos_eps), ARE the
+   block above with A, B the blocks of the Koopman matrix and C = 1 *)
+From PK Require Import BridgeLmiDis.
+From PK.Gen Require Import LmiDisGen.
+
+Theorem C11_generated_blocks (F : fieldType) p q (P : 'M[F]_p) (U : 'M[F]_(p, p + q)) (supply_rate : option 'M[F]_(p + q)) :
+  let Xi := gen_supply_rate supply_rate in
+  let blk := dissip_block_mx P (lsubmx U) (rsubmx U) 1%:M (ulsubmx Xi) (ursubmx Xi) (drsubmx Xi) in
+  gen_dis_a P U supply_rate = blk /\ gen_dis_b P U supply_rate = blk.
+Proof. split; [exact: gen_dis_a_model|exact: gen_dis_b_model]. Qed.
+Print Assumptions C11_generated_blocks.
+
+Theorem C11_generated_default_supply_rate (F : fieldType) p q :
+  let Xi := gen_supply_rate (None : option 'M[F]_(p + q)) in
+  ulsubmx Xi = 1%:M /\ ursubmx Xi = 0 /\ drsubmx Xi = - 1%:M.
+Proof. exact: gen_default_supply_rate_blocks. Qed.
+Print Assumptions C11_generated_default_supply_rate.
+
+Theorem C11_generated_quadratic_form (F : fieldType) p q (P : 'M[F]_p) (U : 'M[F]_(p, p + q)) (Xi : 'M[F]_(p + q))
+    (x z : 'cV[F]_p) (u : 'cV[F]_q) :
+  let A := lsubmx U in let B := rsubmx U in
+  (col_mx (col_mx x u) z)^T *m gen_dis_b P U (Some Xi) *m col_mx (col_mx x u) z
+  = x^T *m P *m x - x^T *m ulsubmx Xi *m x - u^T *m (ursubmx Xi)^T *m x
+    + (- (x^T *m ursubmx Xi *m u) - u^T *m drsubmx Xi *m u)
+    + (z^T *m P *m (A *m x) + z^T *m P *m (B *m u))
+    + ((A *m x)^T *m P *m z + (B *m u)^T *m P *m z + z^T *m P *m z).
+Proof.
+  move=> A B. rewrite gen_dis_b_model /dissip_model dissip_block_quad !mul1mx. by [].
+Qed.
+Print Assumptions C11_generated_quadratic_form.
